@@ -237,6 +237,12 @@ def register(hub, props=("C13", "C15"), pool=None):
                 rec.event(M15I, sig=f"init-dims|{dims.letters}", cls="independence|new-array-dims")
                 _dims_probe(self, dims, call.kwpre["dims"], op)
             return
+        if short == "__setitem__" and len(call.args) > 2 and isinstance(call.args[2], fd.FlodymArray) and call.args[2] is not call.args[0]:
+            t_, s_ = call.args[0], call.args[2]
+            rec.event(M15I, sig=f"setitem-alias|{tuple(t_.dims.letters)}", cls="independence|assignment-target-vs-array-source")
+            if isinstance(t_.values, np.ndarray) and isinstance(s_.values, np.ndarray) and s_.values.size and np.shares_memory(t_.values, s_.values):
+                rec.violation(M15I, "__setitem__:target-shares-memory-with-the-assigned-array", {"op": op, "key": repr(call.args[1])[:80], "target_dims": list(t_.dims.letters), "source_dims": list(s_.dims.letters)}, prop="C15")
+            return
         if short not in INDEPENDENT_RESULT or not isinstance(res, fd.FlodymArray):
             return
         sources = [(i, a) for i, a in enumerate(call.args) if isinstance(a, fd.FlodymArray)]
